@@ -206,7 +206,7 @@ def run(chk):
     chk.ob("C12-R6", "series._conversions.Inlay.disaggregate[DAILY target]", guarded,
            "no is_regular guard or calendar path for the target: a DAILY target is grouped by the constant 365 // f days per period"
            if not guarded else "target regularity is tested before the constant-factor methods", m.loc(d))
-    rule_r7(chk)
+    chk.guard(rule_r7, chk)
     chk.assumptions = [
         "equal-sized nested calendar partitions between regular frequencies (C09-R4)",
         "statistics.mean / builtin sum / numpy.prod propagate NaN",
